@@ -3,6 +3,7 @@
 Every primitive: prim(m, st, inst, args, term) -> value.  All decisions (which may raise Fork)
 are taken before any mutation of the state, because a Fork re-executes the call."""
 from .absm import (
+    term_key,
     Fork, Unanalysable, Violation, mk_int, mk_bool, TRUE, FALSE, UNIT, UNINIT, sym_add, sym_norm,
     sym_of, mask_vals, mask_str, TABLES, FULL, mask_of,
 )
@@ -595,7 +596,15 @@ def iter_rposition(m, st, inst, args, t):
         return NotImplemented
     rev = inst["npath"].endswith("rposition")
     if not rev:
-        return NotImplemented
+        s = it[2]
+        if not (it[3][0] == "int" and it[3][1] == 0):
+            raise Unanalysable("position on partially consumed iterator")
+        clo_tid = inst["args"][-1] if isinstance(inst["args"][-1], int) else None
+        P = closure_table(m, st, inst, args[1], clo_tid)
+        kind, n = scan_run(m, st, s, FULL & ~P, "position scan")
+        # the iterator is left behind the found element (or exhausted): not modelled further
+        m.write_loc(st, loc, ("prim", "spent"))
+        return some(n) if kind == "stop" else NONE
     s = it[2]
     if not (it[3][0] == "int" and it[3][1] == 0):
         raise Unanalysable("rposition on partially consumed iterator")
@@ -650,6 +659,94 @@ def iter_rposition(m, st, inst, args, t):
             break
     st.rsyms[name] = (s[1], P, s[2])
     return some(("sym", ((name, 1),), 0, pb, False))
+
+
+# ---- measured look-ahead: count / position over the remaining input -----------------------------
+def scan_run(m, st, s, K, what):
+    """`s` must be exactly the remaining input.  Decides how many leading bytes lie in class K:
+    ('stop', n) a byte outside K follows after n bytes, ('eof', n) the input ends after n bytes.
+    n is an int while the answer lies within the look-ahead already materialised, otherwise the
+    distance from the cursor to a fresh position token in front of which a run of K-bytes of
+    unknown length is recorded on the tape (unfolded on demand)."""
+    pb = m.p.ptr_bytes * 8
+    if s[0] != "fat" or s[1][0] != "B":
+        raise Unanalysable("%s over something that is not the input buffer" % what)
+    if "$run_scan" in st.flags:
+        kind = st.flags.pop("$run_scan")
+        tok = st.ahead[0]
+        # the distance from the start of the slice (the implementation's own expression of the
+        # cursor position) to the measured position
+        return kind, sym_add(("sym", ((tok, 1),), 0, pb, False), m.addr_of(s[1], pb), -1)
+    r = st.rel_pos(s[1][1], s[1][2])
+    end = sym_add(m.addr_of(s[1], pb), s[2])
+    whole = False
+    if end[0] == "sym":
+        d = sym_add(end, ("sym", (("E", 1),), 0, pb, False), -1, bits=0, signed=True)
+        whole = (d[0] == "int" and d[1] == 0) or (d[0] == "sym" and m.sym_bounds(st, d) == (0, 0))
+    if r is None or r[2] != 1 or r[0] != 0 or r[1] != 0 or not whole:
+        raise Unanalysable("%s over a slice that is not the whole remaining input (%s, %s)" % (what, r, m.show_sym(end) if end[0] == "sym" else end))
+    if st.ahead is not None:
+        m.violate(st, "lookahead-rescanned", "%s starts a second measuring pass over look-ahead that an earlier pass measured and the cursor has not passed yet" % what, fatal=False)
+        raise Unanalysable("second measured look-ahead pass while the first is unconsumed")
+    for i, c in enumerate(st.tape):
+        mask = st.cells[c]
+        inside, outside = mask & K, mask & ~K & FULL
+        if inside and outside:
+            raise Fork([("in-class", lambda s_, c=c: s_.refine(c, K)), ("out-of-class", lambda s_, c=c: s_.refine(c, ~K & FULL))], "measured byte class")
+        if not inside:
+            return "stop", mk_int(i, pb)
+    n = len(st.tape)
+    if st.eof:
+        return "eof", mk_int(n, pb)
+    name = "A" if "A" not in st.chain else "A%d" % (st.ntok + 1)
+
+    def with_stop(s_):
+        mask = FULL & ~K & ~s_.flags.get("tape_excl", 0)
+        if not mask:
+            return False
+        c = s_.new_cell(mask)
+        s_.tape.append(c)
+        s_.ahead = (name, n)
+        s_.run = K & ~s_.flags.get("tape_excl", 0)
+        s_.flags["$run_scan"] = "stop"
+        if m.hooks is not None:
+            m.hooks.on_materialise(m, s_, c)
+
+    def with_eof(s_):
+        s_.eof = True
+        s_.ahead = (name, n)
+        s_.run = K & ~s_.flags.get("tape_excl", 0)
+        s_.flags["$run_scan"] = "eof"
+        if m.hooks is not None:
+            m.hooks.on_eof(m, s_)
+
+    raise Fork([("run-then-byte", with_stop), ("run-then-end", with_eof)], "measured look-ahead")
+
+
+@prim("std::iter::Iterator::take_while")
+def iter_take_while(m, st, inst, args, t):
+    if args[0][0] != "prim" or args[0][1] != "iter":
+        return NotImplemented
+    clo_tid = inst["args"][-1] if inst.get("args") and isinstance(inst["args"][-1], int) else None
+    return ("prim", "takewhile", args[0], args[1], clo_tid)
+
+
+@prim("std::iter::Iterator::count")
+def iter_count(m, st, inst, args, t):
+    from .explore import closure_table
+    it = args[0]
+    if it[0] != "prim":
+        return NotImplemented
+    if it[1] == "iter":
+        return sym_add(it[2][2], it[3], -1)
+    if it[1] != "takewhile":
+        return NotImplemented
+    inner = it[2]
+    if not (inner[3][0] == "int" and inner[3][1] == 0):
+        raise Unanalysable("take_while on a partially consumed iterator")
+    K = closure_table(m, st, inst, it[3], it[4], by_type=True)
+    kind, n = scan_run(m, st, inner[2], K, "take_while(..).count()")
+    return n
 
 
 # ---- option / result helpers that are simpler modelled than interpreted -----------------------
